@@ -33,6 +33,7 @@ type request struct {
 	Op     string          `json:"op"`
 	X      []string        `json:"x"`
 	Raw    json.RawMessage `json:"raw"`
+	Prior  bool            `json:"prior"` // the variables hold derivatives of an earlier computation when activated
 }
 
 type instr struct {
@@ -47,6 +48,7 @@ type instr struct {
 	VB   string   `json:"vb"`
 	Vec  []int    `json:"vec"`  // registers forming a vector operand (reductions)
 	Vec2 []int    `json:"vec2"`
+	CC   bool     `json:"cc"`   // use the concrete variant (ADD, MUL, ...) of the operation
 }
 
 func hex(x float64) string {
@@ -195,6 +197,20 @@ func doExpr(req request) map[string]interface{} {
 		vars[i] = NewScalar(t, unhex(s)).(MagicScalar)
 		regs = append(regs, vars[i])
 	}
+	if req.Prior {
+		// an in-place update x <- x*o (o = 1 with a derivative of its own) as an optimiser would do
+		// it leaves derivatives in x; the value is unchanged
+		for i := range vars {
+			o := NewScalar(t, 1.0).(MagicScalar)
+			if err := o.SetVariable((i+1)%n, n, req.Order); err != nil {
+				return map[string]interface{}{"err": err.Error()}
+			}
+			if err := vars[i].SetVariable(i, n, req.Order); err != nil {
+				return map[string]interface{}{"err": err.Error()}
+			}
+			vars[i].Mul(vars[i], o)
+		}
+	}
 	if err := Variables(req.Order, vars...); err != nil {
 		return map[string]interface{}{"err": err.Error()}
 	}
@@ -226,7 +242,21 @@ func doExpr(req request) map[string]interface{} {
 		if in.KB != "" || in.B >= 0 {
 			b = get(in.KB, in.B, in.VB)
 		}
+		if in.CC {
+			if !concrete(in.Op, r, a, b, NullScalar(t)) {
+				return map[string]interface{}{"err": "no concrete variant of " + in.Op}
+			}
+			continue
+		}
 		switch in.Op {
+		case "Mlgamma":
+			r.Mlgamma(a, int(unhex(in.VB)))
+		case "GammaP":
+			r.GammaP(unhex(in.VB), a)
+		case "BesselI":
+			r.BesselI(unhex(in.VB), a)
+		case "LogBesselI":
+			r.(interface{ LogBesselI(float64, ConstScalar) Scalar }).LogBesselI(unhex(in.VB), a)
 		case "Set":
 			r.Set(a)
 		case "Neg":
@@ -330,6 +360,89 @@ func doExpr(req request) map[string]interface{} {
 	}
 	res["h"] = hexs(h)
 	return res
+}
+
+// the concrete (statically typed) variants of the scalar operations
+func concrete(op string, r_ Scalar, a_, b_ ConstScalar, t_ Scalar) bool {
+	switch r := r_.(type) {
+	case *Real64:
+		a, _ := a_.(*Real64)
+		b, _ := b_.(*Real64)
+		t := t_.(*Real64)
+		if a == nil || (b == nil && b_ != nil) {
+			return false
+		}
+		switch op {
+		case "Abs":
+			r.ABS(a)
+		case "Neg":
+			r.NEG(a)
+		case "Add":
+			r.ADD(a, b)
+		case "Sub":
+			r.SUB(a, b)
+		case "Mul":
+			r.MUL(a, b)
+		case "Div":
+			r.DIV(a, b)
+		case "LogAdd":
+			r.LOGADD(a, b, t)
+		case "LogSub":
+			r.LOGSUB(a, b, t)
+		case "Pow":
+			r.POW(a, b)
+		case "Sqrt":
+			r.SQRT(a)
+		case "Exp":
+			r.EXP(a)
+		case "Log":
+			r.LOG(a)
+		case "Log1p":
+			r.LOG1P(a)
+		default:
+			return false
+		}
+		return true
+	case *Real32:
+		a, _ := a_.(*Real32)
+		b, _ := b_.(*Real32)
+		t := t_.(*Real32)
+		if a == nil || (b == nil && b_ != nil) {
+			return false
+		}
+		switch op {
+		case "Abs":
+			r.ABS(a)
+		case "Neg":
+			r.NEG(a)
+		case "Add":
+			r.ADD(a, b)
+		case "Sub":
+			r.SUB(a, b)
+		case "Mul":
+			r.MUL(a, b)
+		case "Div":
+			r.DIV(a, b)
+		case "LogAdd":
+			r.LOGADD(a, b, t)
+		case "LogSub":
+			r.LOGSUB(a, b, t)
+		case "Pow":
+			r.POW(a, b)
+		case "Sqrt":
+			r.SQRT(a)
+		case "Exp":
+			r.EXP(a)
+		case "Log":
+			r.LOG(a)
+		case "Log1p":
+			r.LOG1P(a)
+		default:
+			return false
+		}
+		return true
+	}
+	return false
 }
 
 // ---------------------------------------------------------------------------------------------
